@@ -30,6 +30,7 @@ Hypotheses.
 -/
 import Flussab.Proof.CnfHeader
 import Flussab.Proof.CnfCanonical
+import Flussab.Proof.CnfLog
 
 namespace Flussab.C07
 open Flussab Flussab.Cnf Flussab.Spec
@@ -116,6 +117,69 @@ example :
     ¬ WF .cnf ⟨8⟩ false (some ⟨2, 1, 0⟩) [⟨0, [3]⟩] ∧
     (Cnf.parseAll .cnf ⟨8⟩ false (LR.init (Cnf.writeDoc .cnf (some ⟨2, 1, 0⟩) [⟨0, [3]⟩]) false)).final ≠ none ∧
     WF .cnf ⟨8⟩ true (some ⟨2, 1, 0⟩) [⟨0, [3]⟩] := by decide +kernel
+
+end Example
+
+/-! ### SAT solver logs
+
+`Spec.LogLayout` (Flussab/Spec/LogLayout.lean): a log is a list of lines — comment lines `"c …"`,
+the solution line, value lines with any split of the assignment (also lines without literals),
+the terminating value line, and (with `ignore_unknown_lines`) arbitrary other lines — each with
+`"\n"` or `"\r\n"`, the last line end optional; numerals with leading zeros, blanks after `"v "`
+and after every numeral, terminator `'-'? '0'^z "0"`.  This covers every choice of the generator
+`gen_log` (harness/src/gen_cnf.rs), and more (solution line between value lines, tabs, leading
+zeros), so the theorem is not `_partial`.  Not in the grammar although the parser accepts it: a
+literal directly followed by the line end (`"v 1\n"`); the grammar puts at least one blank after
+every literal, as the generator and the solvers do. -/
+
+/-- **Layout independence of `parse_log`**: every layout of a log value parses to that value
+(no error, no panic, never out of fuel).  `LogWF`: literal type of 1..64 bits, literals non-zero
+with `|lit| ≤ MAX_DIMACS` (others are rejected by the parser). -/
+theorem log_parse_render (l : LitTy) (ignoreUnknown : Bool) (v : SolverLog) (ℓ : LogLayout)
+    (hwf : LogWF l v) (hfit : ℓ.Fits ignoreUnknown v) (hlen : (ℓ.render v).length < 2 ^ 64 - 1) :
+    ((Cnf.parseLog l ignoreUnknown).run (LR.init (ℓ.render v) false)).1 = .ok v := by
+  obtain ⟨lr', e⟩ := CnfP.parseLog_render l ignoreUnknown v ℓ hwf hfit hlen
+  rw [e]
+
+namespace Example
+
+def logValue : SolverLog := ⟨some false, [1, -2, 127]⟩
+
+/-- CRLF comment; value line with one literal; an empty (unknown) line; an empty value line; the
+solution line between value lines; `"c "` with empty body; the final line with tab, leading
+zeros and `-00`; an unknown `"c"` line; a last comment without line end. -/
+def logLay : LogLayout :=
+  { lines := [(.comment [120, 13], .lf), (.values [.sp] [(1, {})], .crlf), (.unknown [], .lf),
+      (.values [] [], .lf), (.status, .crlf), (.comment [], .lf),
+      (.final [] [(0, {}), (2, { head := .tab })] true 1 [.sp], .lf), (.unknown [99], .crlf),
+      (.comment [49], .lf)]
+    dropFinalEol := true }
+
+example : LogWF ⟨8⟩ logValue ∧ logLay.Fits true logValue ∧
+    (logLay.render logValue).length < 2 ^ 64 - 1 ∧
+    logLay.render logValue =
+      "c x\r\nv  01 \r\n\nv \ns UNSATISFIABLE\r\nc \nv -2 00127\t-00 \nc\r\nc 1".toUTF8.toList := by
+  decide +kernel
+
+def okIs (r : Except PErr SolverLog) (v : SolverLog) : Bool :=
+  match r with | .ok w => decide (w = v) | .error _ => false
+def isErr (r : Except PErr SolverLog) : Bool :=
+  match r with | .ok _ => false | .error _ => true
+
+example : okIs ((Cnf.parseLog ⟨8⟩ true).run (LR.init (logLay.render logValue) false)).1 logValue = true := by
+  decide +kernel
+
+/-- The strictness outside the grammar stays rejected: a bare `"c"` line or an empty line without
+`ignore_unknown_lines`, a blank in front of a line, two blanks after `"s"`, a blank after the
+solution word, an unterminated assignment. -/
+example :
+    let run (ign : Bool) (s : String) := ((Cnf.parseLog ⟨32⟩ ign).run (LR.init s.toUTF8.toList false)).1
+    isErr (run false "c\nv 0\n") ∧ okIs (run true "c\nv 0\n") ⟨none, []⟩ ∧
+    isErr (run false "\nv 0\n") ∧
+    okIs (run true " v 1 0\n") ⟨none, []⟩ ∧ isErr (run false " v 1 0\n") ∧
+    isErr (run true "s  SATISFIABLE\n") ∧ isErr (run true "s SATISFIABLE \n") ∧
+    isErr (run true "v 1\n") ∧ okIs (run false "v 1\nv 0") ⟨none, [1]⟩ := by
+  decide +kernel
 
 end Example
 
